@@ -12,7 +12,7 @@ from harness.common import Machinery
 ALL_INVARIANTS = ["Inv_C08_Keys", "Inv_C01_Acc", "Inv_C01_Total", "Inv_C01_Term", "Inv_C01_Neutral", "Inv_C13_Cold",
                   "Inv_C13_Monotone", "Inv_C09_FirstArgmax"]
 ALL_PROPERTIES = ["Prop_C07_FitIsFresh", "Prop_C10_ReadOnly", "Prop_C17_RejectUnchanged", "Prop_C13_WarmStart",
-                  "Prop_C13_Idempotent"]
+                  "Prop_C13_Complete", "Prop_C13_Idempotent"]
 
 FEATS = {
     "std": {"a": [3, 4], "b": [4, 3], "c": [0, 5], "d": [5, 0]},
